@@ -240,3 +240,43 @@ pub mod verif_sched {
         )
     }
 }
+
+#[cfg(kani)]
+mod verif_kani {
+    use super::*;
+
+    /// StateCounts::add: one transition (prev -1, next +1) from arbitrary counters keeps the other counters, moves
+    /// exactly one unit and never wraps when the source counter is positive (the invariant BuildStates::set maintains)
+    #[kani::proof]
+    #[kani::unwind(8)]
+    pub fn statecounts_step() {
+        let states = [
+            BuildState::Want,
+            BuildState::Ready,
+            BuildState::Queued,
+            BuildState::Running,
+            BuildState::Done,
+            BuildState::Failed,
+        ];
+        let raw: [usize; 6] = kani::any();
+        let mut i = 0;
+        while i < 6 {
+            kani::assume(raw[i] <= (usize::MAX >> 4));
+            i += 1;
+        }
+        let mut c = StateCounts(raw);
+        let a: usize = kani::any();
+        let b: usize = kani::any();
+        kani::assume(a < 6 && b < 6);
+        kani::assume(raw[a] > 0);
+        c.add(states[a], -1);
+        c.add(states[b], 1);
+        if a != b {
+            assert!(c.get(states[a]) == raw[a] - 1);
+            assert!(c.get(states[b]) == raw[b] + 1);
+        } else {
+            assert!(c.get(states[a]) == raw[a]);
+        }
+        kani::cover!(a != b);
+    }
+}
